@@ -26,6 +26,12 @@ def run(tier, seed):
             b.emit("mnew m %s:g:%s:%s" % (kind, f2h(g), f2h(1.5)), "err bad-gamma")
         for a in (1e-6, 0.5, 0.99, nextafter(1.0, False), 1e-9):
             b.emit("mnew m %s:a:%s" % (kind, f2h(a)), "ok")
+    for a in (0.0, 1.0, -0.5, 1.5, -0.0):          # the convenience constructors refuse the same accuracies
+        for form in ("default %s", "logdense %s", "defaultx %s", "loglow %s 64", "loghigh %s 64", "prov %s sparse", "provx %s dense"):
+            b.emit("knewc k " + form % f2h(a), "err bad-accuracy")
+    for a in (1e-6, 0.5, nextafter(1.0, False)):
+        for form in ("default %s", "logdense %s", "defaultx %s", "loglow %s 64", "loghigh %s 64", "prov %s sparse", "provx %s dense"):
+            b.emit("knewc k " + form % f2h(a), "ok")
     b.emit("addbin s 3 %s" % f2h(-1.0), None)      # register does not exist: harness says bad; below the real ones
     b.lines.pop(); b.exp.pop()
     b.emit("new s dense", "ok"); b.emit("addbin s 3 %s" % f2h(-1.0), "err neg-count"); b.emit("addbin s 3 %s" % f2h(-5e-324), "err neg-count")
